@@ -13,7 +13,8 @@ Record view := mkView {
   vout : list (nat * list eref);       (* a -> edges(a): (id, target, weight) in iteration order *)
   vin : list (nat * list eref);        (* a -> edges_directed(a, Incoming): (id, source, weight) *)
   vecount : nat;                       (* edge_count *)
-  vebound : nat                        (* EdgeIndexable::edge_bound (0 when the type has none) *)
+  vebound : nat;                       (* EdgeIndexable::edge_bound (0 when the type has none) *)
+  verefs : list (nat * nat * nat * Z)  (* edge_references order: (id, source, target, weight) *)
 }.
 
 Fixpoint assoc_nat {A} (l : list (nat * A)) (k : nat) : option A :=
@@ -54,7 +55,13 @@ Definition is_visited (m : vmap) (x : nat) : bool := mem x m.
 
 (* ---- building a view from the line grammar ----
    header = [directed; node_bound; visit_cap (-1 = unbounded); edge_count; edge_bound]
-   opcode 0: node a | 1: out a  e t w  e t w ... | 2: in a  e s w ... *)
+   opcode 0: node a | 1: out a  e t w  e t w ... | 2: in a  e s w ... | 4: erefs  e s t w  e s t w ... *)
+Fixpoint quads_of (l : list Z) : list (nat * nat * nat * Z) :=
+  match l with
+  | e :: s :: t :: w :: rest => (nz e, nz s, nz t, w) :: quads_of rest
+  | _ => []
+  end.
+
 Fixpoint erefs_of (l : list Z) : list eref :=
   match l with
   | e :: t :: w :: rest => (nz e, nz t, w) :: erefs_of rest
@@ -64,15 +71,16 @@ Fixpoint erefs_of (l : list Z) : list eref :=
 Definition view_init (header : list Z) : view :=
   mkView (Z.eqb (argz header 0) 1) (arg header 1)
          (if Z.ltb (argz header 2) 0 then None else Some (arg header 2)) [] [] []
-         (arg header 3) (arg header 4).
+         (arg header 3) (arg header 4) [].
 
 Definition view_add (v : view) (o : line) : view :=
   let '(code, a) := o in
   match code with
-  | 0 => mkView (vdirected v) (vbound v) (vcap v) (vnodes v ++ [arg a 0]) (vout v) (vin v) (vecount v) (vebound v)
+  | 0 => mkView (vdirected v) (vbound v) (vcap v) (vnodes v ++ [arg a 0]) (vout v) (vin v) (vecount v) (vebound v) (verefs v)
   | 1 => mkView (vdirected v) (vbound v) (vcap v) (vnodes v) (vout v ++ [(arg a 0, erefs_of (tl a))]) (vin v)
-                (vecount v) (vebound v)
+                (vecount v) (vebound v) (verefs v)
   | 2 => mkView (vdirected v) (vbound v) (vcap v) (vnodes v) (vout v) (vin v ++ [(arg a 0, erefs_of (tl a))])
-                (vecount v) (vebound v)
+                (vecount v) (vebound v) (verefs v)
+  | 4 => mkView (vdirected v) (vbound v) (vcap v) (vnodes v) (vout v) (vin v) (vecount v) (vebound v) (quads_of a)
   | _ => v
   end.
